@@ -83,8 +83,10 @@ def families(quick):
         fam('linalg', 'LinOps', S('af22', 'af23', 'af223', 'cf33', 'cc22', 'ci22', 'BX', 'Y', 'X', 'ci23', 'cb23'), [PRODYX] if quick else B, maxleaves=1),
         fam('lookup', 'LookupOps', S('rn3', 'rm3', 'cs3', 'as3', 'X', 'af23', 'EX', 'ai2') if quick else S('rn3', 'rm3', 'cf3', 'cs3', 'as3', 'X', 'Y', 'BX', 'af23', 'EX', 'ai2'), one, maxleaves=3, maxunused=2),
     ]
+    # a table indexed by a position-dependent integer: searchsorted of the coordinate, then take / getitem
+    bypos = fam('index-by-position', '{"searchsorted", "take", "getitem_node"}', S('rn3', 'X', 'cf3'), [PRODXY] if quick else B, maxops=2, maxleaves=3, maxunused=2, wide=0)
     if quick:
-        d2 = [
+        d2 = [bypos,
             # ---- depth 2, exhaustive per family, narrow pools
             fam('elem2', '{"add", "true_divide", "power", "greater"}', S('X', 'af2', 'ai2'), [LINEG], maxops=2, maxleaves=2, wide=0),
             fam('index2', '{"getitem"}', S('af223', 'BX'), [PRODYX], maxops=2, maxleaves=1, wide=0),
@@ -97,6 +99,7 @@ def families(quick):
         return d1 + d2
     everything = [LINEB, LINEG, LINEU, RECTB, PRODYX, PRODXY]
     d2 = [
+        bypos,
         fam('elem2', '{"add", "multiply", "true_divide", "power", "floor_divide", "greater"}', S('X', 'af2', 'ai2'), A, maxops=2, maxleaves=2, wide=0),
         fam('index2', '{"getitem", "take"}', S('af223', 'BX'), B, maxops=2, maxleaves=1, wide=0),
         fam('shape2', '{"reshape", "transpose", "swapaxes", "ravel", "broadcast_to", "repeat"}', S('af23', 'Y'), B, maxops=2, maxleaves=1, wide=0),
